@@ -54,6 +54,10 @@ class CFormatter(Formatter):
 
     @override(Formatter)
     def format_comment(self, content: str) -> str:
+        if content.endswith(("\\", "??/")):
+            # A trailing backslash (or its trigraph) would splice the next line
+            # of code into this comment.
+            content += " ."
         return f"// {content}"
 
     def format_sizeof(self, t: str) -> str:
